@@ -43,6 +43,8 @@ var (
 	nSeq    = flag.Int("nseq", 40, "sequential specification cases")
 	pace    = flag.Duration("pace", 8*time.Millisecond, "max random pause of a client between operations")
 	noNem   = flag.Bool("nonemesis", false, "no faults")
+	raceDur = flag.Duration("racedur", 3*time.Second, "duration of the same-key race rounds (0 = none)")
+	pairDur = flag.Duration("pairdur", 3*time.Second, "duration of the write-through-leader / shortcut-through-follower pairs (0 = none)")
 	doC     = flag.Bool("consts", false, "print Consts.v")
 	replay  = flag.String("replay", "", "cases.tsv (Q lines) to re-run against a fresh cluster")
 	zrnode  = flag.Bool("zrnode", false, "child mode: run one replica")
@@ -353,6 +355,8 @@ type meta struct {
 	ViaFollower int                          `json:"acked_writes_via_follower"`
 	Targets     map[string]int               `json:"targets"`
 	Seq         int                          `json:"seq_cases"`
+	RaceRounds  int                          `json:"race_rounds"`
+	PairRounds  int                          `json:"pair_rounds"`
 	Extra       map[string]map[string]string `json:"extra,omitempty"`
 }
 
@@ -510,11 +514,6 @@ func main() {
 	if *replay == "" && *dur > 0 {
 		nem := &nemesis{c: c, rng: rand.New(rand.NewSource(*seed*104729 + 7)), stop: make(chan struct{}),
 			done: make(chan struct{}), procs: *mode == "procs"}
-		if !*noNem {
-			go nem.run()
-		} else {
-			close(nem.done)
-		}
 		// leader hint for the readers
 		hintStop := make(chan struct{})
 		go func() {
@@ -530,6 +529,29 @@ func main() {
 		atomic.StoreInt32(&w.leaderHint, int32(c.leader()))
 		var wg sync.WaitGroup
 		loadStart := nowUs()
+		// targeted phases first (fault free): same-key races and leader-write / follower-shortcut pairs
+		var tcl []*client
+		for i := 0; i < *nCli; i++ {
+			tcl = append(tcl, &client{id: 50 + i, addrs: c.addrs, conns: make([]*goredis.Conn, nReplica),
+				rng: rand.New(rand.NewSource(*seed*37 + int64(i)*7919)), opTO: 6 * time.Second})
+		}
+		if *raceDur > 0 {
+			m.RaceRounds = runRaces(w, tcl, time.Now().Add(*raceDur), rng)
+		}
+		if *pairDur > 0 {
+			m.PairRounds = runPairs(w, tcl, time.Now().Add(*pairDur))
+		}
+		for _, cl := range tcl {
+			for i := range cl.conns {
+				cl.drop(i)
+			}
+		}
+		fmt.Printf("targeted phases done: %d race rounds, %d pair rounds\n", m.RaceRounds, m.PairRounds)
+		if !*noNem {
+			go nem.run()
+		} else {
+			close(nem.done)
+		}
 		for i := 0; i < *nCli; i++ {
 			cl := &client{id: i, addrs: c.addrs, conns: make([]*goredis.Conn, nReplica),
 				rng: rand.New(rand.NewSource(*seed*31 + int64(i)*1000003)), opTO: 6 * time.Second}
